@@ -125,6 +125,14 @@ func sameOutcome(a, b *outcome) bool {
 
 func mkSource(file []byte, seekable bool, src faultio.Source) (io.Reader, *faultio.Source) {
 	src.Data = file
+	if src.OneShot {
+		if seekable {
+			s := &faultio.SeekSource{Source: src}
+			return s, &s.Source
+		}
+		s := &src
+		return s, s
+	}
 	if seekable {
 		s := &faultio.SeekSource{Source: src}
 		return s, &s.Source
@@ -193,12 +201,14 @@ func checkC15(c C15Case, st *stats.Collector) error {
 	classes := map[string]int64{}
 	for p := 0; p < len(file); p++ {
 		cl := faultClass(d, uint64(p))
-		for _, together := range []bool{false, true} {
+		for variant := 0; variant < 3; variant++ {
+			together := variant == 1
+			oneShot := variant == 2
 			for i, r := range rs {
-				src, h := mkSource(file, r.seekable, faultio.Source{FailAt: p, Together: together})
+				src, h := mkSource(file, r.seekable, faultio.Source{FailAt: p, Together: together, OneShot: oneShot})
 				got := r.run(src)
 				evals++
-				label := fmt.Sprintf("%s, source error at byte %d of %d (%s, together=%v)", r.name, p, len(file), cl, together)
+				label := fmt.Sprintf("%s, source error at byte %d of %d (%s, together=%v, one-shot=%v)", r.name, p, len(file), cl, together, oneShot)
 				if got.panic_ != "" {
 					return pk.Failf("panic", "%s: %s", label, got.panic_)
 				}
